@@ -305,6 +305,10 @@ def gen(rng, tier):
         for bx in [(a, 3.0), (a, INF), (-3.0, a), (-INF, a), (a, 1.0), (-1.0, a)]:
             if bx[0] <= bx[1]:
                 cases.append(case("as_integer_bound", [bt(bx), list(range(-4, 5))], "boundary/as_integer_bound"))
+    # endpoints far beyond the 64-bit integer range (every binary64 of that size is an integer): nothing may be lost
+    for bx in [(0.0, 1e19), (-3e19, 5.0), (1e19, 2e19), (2.0 ** 63, 2.0 ** 63 + 4096.0), (-(2.0 ** 64), -(2.0 ** 63)),
+               (-1e300, 1e300), (2.0 ** 62, 2.0 ** 70)]:
+        cases.append(case("as_integer_bound", [bt(bx), [0, 5, 2 ** 62, 2 ** 63, 10 ** 19, -(2 ** 63)]], "boundary/as_integer_bound_huge"))
     # intervals without any integer: Bound::new inside as_integer_bound fails (panic), model None
     for bx in [(0.25, 0.75), (-0.75, -0.25), (1.5, 1.5), (2.25, 2.5)]:
         cases.append(case("as_integer_bound", [bt(bx), list(range(-4, 5))], "boundary/as_integer_bound_empty"))
